@@ -36,5 +36,16 @@ META["C19"] = {
     "technique": "Lean 4 theorems (bit-list bridge, sortedness of the bucket visiting order) + differential correspondence",
 }
 
+META["C20"] = {
+    "text": "Proof: for an arbitrary (stateful, adversarial) responder every iterative operation contacts each id at most once, "
+            "contacts only ids somebody mentioned, terminates (32-byte ids), reports as closest a minimum of the contacted / "
+            "responding / accepting nodes, returns only validated values from contacted nodes and counts distinct acceptors, with "
+            "the error exactly below the minimum. The real DHTFindNode/Join/Get/Put run against simulated networks and their RPC "
+            "sequence and result are compared with the model each run.",
+    "design_ref": "DESIGN.md section 5 C20",
+    "note": _NOTE,
+    "technique": "Lean 4 invariant proofs over the dhtIterate loop with an arbitrary responder + differential correspondence on simulated networks",
+}
+
 _PENDING = "check under construction in this build round; will be claimed once its model, theorems and correspondence stream pass on the unchanged tree"
 NOT_APPLICABLE = {("C%02d" % i): _PENDING for i in range(1, 21)}
